@@ -240,20 +240,24 @@ def ProvView.none : ProvView := ⟨false, fun _ => []⟩
 def provColumns (p : ProvView) (t : DS) (printed : String) : List Column :=
   (p.cols printed).map (fun c => Column.mk1 (Ident.escapeS c) (some (t, printed)))
 
+/-- `_replace_wildcard` (holders.py).  Two repairs are mirrored: D47 — a target column that is merely LISTED (known from
+    metadata) is still wired, only one that already has a source keeps it (`get_source_columns(new_column)` is evaluated on
+    the graph as it is at that iteration); D48 — the target wildcard is removed only when no other (un‑expandable)
+    wildcard feeds it any more, after the expanded source wildcard was removed. -/
 def replaceWildcard (g : LGraph) (tgt : DS) (srcCols : List Column) (tgtWild srcWild : Node) : LGraph :=
   let tp := (tgt, printedDS g tgt)
   let existing := (getTableColumns g tgt).map (·.key)       -- computed once, before the loop
   let g := srcCols.foldl (fun g sc =>
     let nc := Column.mk1 sc.raw (some tp)        -- `Column._from_raw_name(src_col.raw_name)`
-    if existing.contains nc.key || sc.raw == "*" then g
+    if sc.raw == "*" || (existing.contains nc.key && !(getSourceColumns g nc.key).isEmpty) then g
     else
       let g := g.addEdge (.ds tgt) nc.key .hasColumn none none (some (.col nc))
       let g := match sc.parent? with
         | some sp => g.addEdge (.ds sp.1) sc.key .hasColumn none (some (.sub sp.2)) (some (.col sc))
         | none => g
       g.addEdge sc.key nc.key .lineage none (some (.col sc)) (some (.col nc))) g
-  let g := if g.hasNode tgtWild then g.removeNode tgtWild else g
-  if g.hasNode srcWild then g.removeNode srcWild else g
+  let g := if g.hasNode srcWild then g.removeNode srcWild else g
+  if g.hasNode tgtWild && (getSourceColumns g tgtWild).isEmpty then g.removeNode tgtWild else g
 
 def expandWildcard (p : ProvView) (g : LGraph) : LGraph :=
   match targetTable? g with
